@@ -7,7 +7,7 @@ use crate::rng::Rng;
 use crate::semi::*;
 use crate::tt::Tt;
 use crate::with_robdd;
-use rsdd::repr::{BddPtr, PartialModel, VarLabel};
+use rsdd::repr::{BddPtr, DDNNFPtr, PartialModel, VarLabel};
 use serde_json::{json, Value};
 
 pub fn run(ctx: &mut Ctx) {
@@ -155,8 +155,22 @@ fn map_case(ctx: &mut Ctx, rng: &mut Rng) {
     if ignored {
         ctx.count("queries_with_ignored_variable", 1);
     }
+    // half of the cases first ask the same kinds of query about ANOTHER function in the same
+    // builder (sharing nodes with f) under swapped weights: whatever those queries leave behind
+    // must not change the answers checked below
+    let prelude = rng.chance(1, 2);
+    let (_, t2) = interesting_function(n, rng);
+    let w2: Vec<(OReal, OReal)> = w.iter().map(|(l, h)| (h.clone(), l.clone())).collect();
+    let params2 = crate::semi::params(&crate::gen::spread_weights(&w2, (OReal(Dy::new(1, 1)), OReal(Dy::new(1, 1)))));
     with_robdd!(bcfg, b, {
         let p: BddPtr = bdd_from_tt(b, &t, &cfg.order, 0);
+        if prelude {
+            let p2: BddPtr = bdd_from_tt(b, &t2, &cfg.order, 0);
+            let _ = p2.marginal_map(&qlbl, nb, &params2);
+            let _ = p2.bb(&qlbl, nb, &params2);
+            let _ = p.neg().marginal_map(&qlbl, nb, &params2);
+            ctx.count("queries_after_other_queries_in_the_same_builder", 2);
+        }
         for which in ["marginal_map", "bb_real"] {
             let (val, model) = if which == "marginal_map" {
                 p.marginal_map(&qlbl, nb, &params)
@@ -268,8 +282,19 @@ fn meu_case(ctx: &mut Ctx, rng: &mut Rng) {
     if nutil > 0 {
         ctx.count("cases_with_utilities", 1);
     }
+    let prelude = rng.chance(1, 2);
+    let (_, t2) = interesting_function(n, rng);
+    let w2: Vec<(OEu, OEu)> = w.iter().map(|(l, h)| (h.clone(), l.clone())).collect();
+    let params2 = crate::semi::params(&crate::gen::spread_weights(&w2, (OEu(Dy::new(1, 1), Dy::int(0)), OEu(Dy::new(1, 1), Dy::int(0)))));
     with_robdd!(bcfg, b, {
         let p: BddPtr = bdd_from_tt(b, &t, &cfg.order, 0);
+        if prelude {
+            let p2: BddPtr = bdd_from_tt(b, &t2, &cfg.order, 0);
+            let _ = p2.meu(&dlbl, nb, &params2);
+            let _ = p2.bb(&dlbl, nb, &params2);
+            let _ = p.neg().meu(&dlbl, nb, &params2);
+            ctx.count("queries_after_other_queries_in_the_same_builder", 2);
+        }
         for which in ["meu", "bb_eu"] {
             let (val, model) = if which == "meu" { p.meu(&dlbl, nb, &params) } else { p.bb(&dlbl, nb, &params) };
             ctx.count(which, 1);
